@@ -159,8 +159,8 @@ async def feed_history(loop: vloop.VirtualLoop, ctx, trial: int) -> None:
         return
     fl = tcs._faultlog
     # self-check of the harness' timestamp packing against the library's reading of it
-    for _ in range(rng.randint(0, 6)):
-        sim.new()  # a log that existed before the gateway started listening
+    for _ in range(rng.choice((rng.randint(0, 6), rng.randint(0, 6), rng.randint(0, 6), 62, 63, 64))):
+        sim.new()  # a log that existed before the gateway started listening (sometimes a full one)
     if trial == 0 and ctx.shard == 0:  # the recorded finding's witness: always re-observed
         while len(sim.entries) < 5:
             sim.new()
@@ -214,7 +214,7 @@ async def feed_history(loop: vloop.VirtualLoop, ctx, trial: int) -> None:
         elif kind == "reply":
             if not sim.entries:
                 continue
-            k = rng.randrange(min(len(sim.entries), 63))
+            k = rng.randrange(min(len(sim.entries), 64))  # incl. the last slot, 0x3F
             history.append(f"reply idx={k} {sim.entries[k]['ts']}")
             await reply(k)
             view_check(ctx, fl, sim, sent, history, "after-reply")
@@ -229,11 +229,11 @@ async def feed_history(loop: vloop.VirtualLoop, ctx, trial: int) -> None:
             if not sim.entries:
                 continue
             m = len(sim.entries) if kind == "readthrough" else rng.randint(1, len(sim.entries))
-            m = min(m, 63)
+            m = min(m, 64)
             history.append(f"read-through 0..{m - 1}" + (" +null" if kind == "readthrough" else ""))
             for k in range(m):
                 await reply(k)
-            if kind == "readthrough" and len(sim.entries) < 63:
+            if kind == "readthrough" and len(sim.entries) < 64:
                 await reply(len(sim.entries))
             ctx.count("readthroughs")
             view = view_check(ctx, fl, sim, sent, history, "after-readthrough")
@@ -258,7 +258,7 @@ async def real_get_faultlog(loop: vloop.VirtualLoop, ctx, trial: int) -> None:
     """The real get_faultlog() of a port gateway against the simulated controller."""
     rng = ctx.rng
     sim = SimLog(rng)
-    for _ in range(rng.choice((0, 1, 3, 6, 7, 20))):
+    for _ in range(rng.choice((0, 1, 3, 6, 7, 20, 63, 64))):
         sim.new()
     air = airmod.Air(loop)
 
